@@ -8,8 +8,8 @@ drawn once over the target rectangle with source point (0,0))
 
 Go keeps the paint as `z.fill image.Image`, an interface holding `&z.flatImage` (whose `C` holds `&z.flatColor`) or
 `&z.gradient`; the translation represents such a value as a handle (`Go.Ref`, the field's path).  The model keeps the paint
-itself (`fill : Paint`).  `FillRep` relates the two: a flat paint is the handle "flatImage" together with the colour in
-`z.flatColor`, a gradient paint the handle "gradient" together with `z.gradient`.  StartPath establishes the relation
+itself (`fill : Paint`).  `FillRep` relates the two: a flat paint is the handle "flatImage", whose `C` is the handle
+"flatColor" (THIS Renderer's own colour field, not one shared with a copy), together with the colour in `z.flatColor`, a gradient paint the handle "gradient" together with `z.gradient`.  StartPath establishes the relation
 whenever the path is NOT disabled (when it is disabled no `Draw` follows and the next StartPath chooses again — a gradient
 that turns out invalid leaves Go's fields in a state the model does not track); ClosePathEndPath uses it through `pf`.
 -/
@@ -19,9 +19,10 @@ open Ivg Ivg.Num Ivg.Gen.Code Ivg.Ren Grad
 instance : Inhabited RastObj := ⟨⟨⟨0⟩, ⟨0⟩, ⟨0⟩, ⟨0⟩, []⟩⟩
 
 /-- the model paint represented by Go's `(z.fill, z.flatColor, z.gradient)` -/
-def FillRep (p : Paint F64) (ref : Go.Ref) (flatColor : image_color_RGBA) (gradient : render_Gradient) : Prop :=
+def FillRep (p : Paint F64) (ref : Go.Ref) (flatColor : image_color_RGBA) (flatImage : image_Uniform)
+    (gradient : render_Gradient) : Prop :=
   match p with
-  | .flat c => ref = "flatImage" ∧ flatColor = rgbaOf c
+  | .flat c => ref = "flatImage" ∧ flatImage.C = "flatColor" ∧ flatColor = rgbaOf c
   | .gradient g => ref = "gradient" ∧ gradient = gradientOf g
 
 section
@@ -53,7 +54,7 @@ theorem startPath_code_tie (fuel : Nat) (hf : 127 ≤ fuel) (ref0 : Go.Ref) (fi0
     let o := z.step arc pinf (.startPath adj x y)
     R.1 = objOf o.1 (l ++ o.2) ∧ R.2.1 = o.1.disabled ∧ R.2.2.1 = stOf o.1 ∧
     R.2.2.2.2.1 = rgbaOf (z.cReg.get6 (z.cSel - adj)) ∧
-    (o.1.disabled = false → FillRep o.1.fill R.2.2.2.1 R.2.2.2.2.1 R.2.2.2.2.2.2.1) := by
+    (o.1.disabled = false → FillRep o.1.fill R.2.2.2.1 R.2.2.2.2.1 R.2.2.2.2.2.1 R.2.2.2.2.2.2.1) := by
   intro R o
   have hdy : ∀ i : Int, Go.cvt_int_f32 i = (Arith.ofInt i : F32) := fun _ => rfl
   have hrgba : ∀ c : RGBA, (⟨c.r, c.g, c.b, c.a⟩ : image_color_RGBA) = rgbaOf c := fun _ => rfl
